@@ -8,6 +8,9 @@ V = os.path.dirname(os.path.dirname(os.path.abspath(__file__)))
 ENV = dict(os.environ, GOFLAGS="-mod=mod", GOPROXY="off", GOSUMDB="off", GOTOOLCHAIN="local")
 ENV.pop("GOWORK", None)
 
+BIN = tempfile.mkdtemp(prefix="idxbin-", dir="/tmp") + "/resverif"
+shutil.copy(V + "/bin/resverif", BIN)   # the binary under test is fixed for the whole run
+
 def run(patch):
     d = tempfile.mkdtemp(prefix="idx-", dir="/tmp")
     try:
@@ -18,7 +21,7 @@ def run(patch):
         r = subprocess.run(["go", "build", "./..."], cwd=d, env=ENV, capture_output=True, text=True)
         if r.returncode != 0:
             return patch, {"error": "build failed"}
-        r = subprocess.run([V + "/bin/resverif", "check", "-p", "all", "-repo", d, "-no-evidence"], capture_output=True, text=True)
+        r = subprocess.run([BIN, "check", "-p", "all", "-repo", d, "-no-evidence"], capture_output=True, text=True)
         props = sorted(set(re.findall(r"^VIOLATION property=(C\d+)", r.stdout, re.M)))
         rules = {}
         cur = None
@@ -47,4 +50,5 @@ json.dump(idx, open(idx_path, "w"), indent=1, sort_keys=True)
 n_m = [k for k, v in idx.items() if v["kind"] != "benign"]
 surv = [k for k in n_m if not idx[k].get("detected_by")]
 fa = [k for k, v in idx.items() if v["kind"] == "benign" and (v.get("detected_by") or v.get("exit"))]
+shutil.rmtree(os.path.dirname(BIN), ignore_errors=True)
 print(f"{len(n_m)} breaking patches, {len(surv)} survivors: {surv}; benign: {sum(1 for v in idx.values() if v['kind']=='benign')}, false alarms: {fa}")
